@@ -546,13 +546,42 @@ impl Ctx {
     }
 }
 
+// A generic function used as a value (not called on the spot): the use site's function type
+// fixes the instance. Returns the specialised name, or None when `name` is not a generic function
+// or its type arguments cannot be read off `ty`.
+fn specialize_fn_value(ctx: &mut Ctx, name: &str, ty: &Ty) -> Option<String> {
+    let callee = ctx.orig_fns.get(name)?;
+    if !fn_is_generic(callee) {
+        return None;
+    }
+    let Ty::TFunc { params, ret_ty } = ty else {
+        return None;
+    };
+    if params.len() != callee.params.len() {
+        return None;
+    }
+    let mut subst: Subst = IndexMap::new();
+    for ((_, pt), at) in callee.params.iter().zip(params.iter()) {
+        unify(pt, at, &mut subst).ok()?;
+    }
+    unify(&callee.ret_ty, ret_ty, &mut subst).ok()?;
+    if subst.values().any(has_tparam) {
+        return None;
+    }
+    let generic_func_name = callee.name.clone();
+    Some(ctx.ensure_instance(&generic_func_name, subst))
+}
+
 // Transform an expression under a given substitution; queue any needed instances
 fn mono_expr(ctx: &mut Ctx, e: &core::Expr, s: &Subst) -> MonoExpr {
     match e.clone() {
-        core::Expr::EVar { name, ty } => MonoExpr::EVar {
-            name,
-            ty: subst_ty(&ty, s),
-        },
+        core::Expr::EVar { name, ty } => {
+            let ty = subst_ty(&ty, s);
+            match specialize_fn_value(ctx, &name, &ty) {
+                Some(spec) => MonoExpr::EVar { name: spec, ty },
+                None => MonoExpr::EVar { name, ty },
+            }
+        }
         core::Expr::EPrim { value, ty } => {
             let ty = subst_ty(&ty, s);
             MonoExpr::EPrim { value, ty }
@@ -665,7 +694,14 @@ fn mono_expr(ctx: &mut Ctx, e: &core::Expr, s: &Subst) -> MonoExpr {
             ty: subst_ty(&ty, s),
         },
         core::Expr::ECall { func, args, ty } => {
-            let new_func = mono_expr(ctx, &func, s);
+            // A callee named directly is specialised below, once the argument types are known
+            let new_func = match func.as_ref() {
+                core::Expr::EVar { name, ty } => MonoExpr::EVar {
+                    name: name.clone(),
+                    ty: subst_ty(ty, s),
+                },
+                _ => mono_expr(ctx, &func, s),
+            };
             let new_args: Vec<MonoExpr> = args.iter().map(|a| mono_expr(ctx, a, s)).collect();
             let new_ty = subst_ty(&ty, s);
 
